@@ -173,13 +173,13 @@ def gen_scenarios(seed: int, n: int) -> list[dict[str, Any]]:
 _RE = re.compile(r'<<"MONITOR",\s*(\d+),\s*"([^"]*)",\s*"([^"]*)">>')
 
 
-def judge(traces: list[dict[str, Any]], rep: Any) -> dict[str, str]:
+def judge(traces: list[dict[str, Any]], rep: Any, focus: str = '') -> dict[str, str]:
     scratch = tempfile.mkdtemp(prefix='vf-dm-')
     try:
         path = os.path.join(scratch, 'traces.json')
         with open(path, 'w') as f:
             json.dump([{'id': t['id'], 'conf': t['conf'], 'events': t['events']} for t in traces], f)
-        cfg = 'SPECIFICATION Spec\nCONSTANT Hs = {"d1", "d2", "t1"}\nCONSTRAINT Book\nPOSTCONDITION Verdicts\nCHECK_DEADLOCK FALSE\n'
+        cfg = 'SPECIFICATION Spec\nCONSTANT Hs = {"d1", "d2", "t1"}\nCONSTANT Focus = "' + focus + '"\nCONSTRAINT Book\nPOSTCONDITION Verdicts\nCHECK_DEADLOCK FALSE\n'
         r = tlc.run('DaemonMonitor', cfg_text=cfg, workers=1, env={'TRACE_FILE': path}, timeout=1800)
     finally:
         shutil.rmtree(scratch, ignore_errors=True)
